@@ -390,6 +390,7 @@ async fn run_scenario(sc: Value, sock: PathBuf, meaning: Map<String, Value>) -> 
     let mut cfg = base_config().await;
     cfg.unix_endpoint = Some(UnixEndpoint { path: sock.clone() });
     cfg.unix_disabled = false;
+    cfg.extended_monitoring = b(&sc, "extmon");
     let (api_tx, api_rx) = oneshot::channel();
     let server = tokio::spawn(async move {
         let r = tosub::build_root("wbverif")
@@ -555,7 +556,7 @@ async fn run_scenario(sc: Value, sock: PathBuf, meaning: Map<String, Value>) -> 
     subsys.request_global_shutdown();
     let clean = tokio::time::timeout(Duration::from_secs(10), server).await.map(|r| r.unwrap_or(false)).unwrap_or(false);
     let res = json!({"sessions": sess_out, "streams": streams, "lsstreams": lsstreams, "extra": [], "exact": exact,
-           "auth_required": false, "server_clean_exit": clean});
+           "auth_required": false, "server_clean_exit": clean, "extmon": b(&sc, "extmon")});
     let names = sh.names.lock().await;
     names.translate(&res)
 }
